@@ -82,7 +82,7 @@ impl Property for C04 {
         "a case is a history: a 2D curve (2-40 vertices, open/closed/force-closed, scale 1e-3..1e3, tol 1e-9..1e-4 of scale) and 1-5 operations (between_lengths, by_control, split_open, split_closed, trim_front/back, reversed) applied to the curve produced by the previous one; lengths are constructed from the current curve (exact vertex lengths, interior fractions, 0, L, outside, first + k*tol). Oracle: end points equal the source's points at the requested lengths, every vertex of a piece lies on the source in increasing (seam-unwrapped) order, interior source vertices are all present, length = arc-length difference within 4 tol, ill-posed requests yield nothing. Non-trivial: closed curve with a seam-wrapping request, or an end point exactly on a vertex, or both ends on one edge. Distinct = distinct canonical JSON."
     }
     fn cases(t: Tier) -> u32 {
-        t.pick(200_000, 10_000_000)
+        t.pick(1_200_000, 10_000_000)
     }
     fn expected_labels() -> Vec<&'static str> {
         vec!["between_some", "between_none_required", "wraps_seam", "end_on_vertex", "same_edge", "split_open", "split_closed", "trim", "reversed", "by_control_inside", "by_control_outside", "history>=2", "delta_tol"]
